@@ -72,6 +72,21 @@ def r1_validity(chk, F):
     def feas(st, cond):
         return any(D.feasible(st, alt) for alt in dnf(cond) if not any(x[0] == "opq" for x in alt))
 
+    # a path may return a computed boolean (`!(a || b)`, `x == y`) instead of a literal: it is split into the sub-path on which the
+    # value is true and the one on which it is false
+    split = []
+    for st in finals:
+        if st.end == "return" and isinstance(st.ret, Bool) and st.ret.c not in (TRUE, FALSE):
+            ts, fs = eng.branch(st.clone(), st.ret.c)
+            for s2 in ts:
+                s2.end, s2.ret = "return", Bool(TRUE)
+                split.append(s2)
+            for s2 in fs:
+                s2.end, s2.ret = "return", Bool(FALSE)
+                split.append(s2)
+        else:
+            split.append(st)
+    finals = split
     for st in finals:
         if st.end != "return":
             continue
@@ -239,7 +254,8 @@ def r3_arithmetic(chk, F):
             if not (isinstance(r, Struct) and len(r.fs) == 2 and all(isinstance(x, Int) for x in r.fs)):
                 return NotImplemented
             n = sum(1 for x in st.trace if isinstance(x, tuple) and x and x[0] == "loop-iter")
-            if n < iterations:
+            # a loop whose range is empty on this path (e.g. `year..1900` when year >= 1900) runs no iteration
+            if n < iterations and D.feasible(st, [(r.fs[0].lin - r.fs[1].lin + 1, "<=")]):
                 y = e.fresh(r.fs[0].tid, ("loop-var", n))
                 # start <= y < end
                 st.trace.append(("loop-iter", r.fs[0], r.fs[1], y))
@@ -311,7 +327,8 @@ def _r3_cell(chk, F, iterations, month):
             if not (isinstance(r, Struct) and len(r.fs) == 2 and all(isinstance(x, Int) for x in r.fs)):
                 return NotImplemented
             n = sum(1 for x in st.trace if isinstance(x, tuple) and x and x[0] == "loop-iter")
-            if n < iterations:
+            # a loop whose range is empty on this path (e.g. `year..1900` when year >= 1900) runs no iteration
+            if n < iterations and D.feasible(st, [(r.fs[0].lin - r.fs[1].lin + 1, "<=")]):
                 y = e.fresh(r.fs[0].tid, ("loop-var", n))
                 st.trace.append(("loop-iter", r.fs[0], r.fs[1], y))
                 e.add_cons(st, [(r.fs[0].lin - y.lin, "<="), (y.lin - r.fs[1].lin + 1, "<=")])
@@ -375,8 +392,11 @@ def _r3_cell(chk, F, iterations, month):
                 ylo, yhi = eng.lin_bounds(st, y)
                 fwd = ylo >= 1900
                 bwd = yhi <= 1899
-                rng_ok = len(ends) == 1 and ((fwd and ends[0][1].lin == Lin.const(1900) and ends[0][2].lin == y) or
-                                             (bwd and ends[0][1].lin == y and ends[0][2].lin == Lin.const(1900)))
+                # (a loop over the other range may be present as well, as long as it is empty on this path)
+                def is_expected(e_):
+                    return (fwd and e_[1].lin == Lin.const(1900) and e_[2].lin == y) or (bwd and e_[1].lin == y and e_[2].lin == Lin.const(1900))
+                nonempty = [e_ for e_ in ends if D.feasible(st, [(e_[1].lin - e_[2].lin + 1, "<=")])]
+                rng_ok = any(is_expected(e_) for e_ in ends) and all(is_expected(e_) for e_ in nonempty) and len(nonempty) <= 1
                 if its:
                     rng_ok = rng_ok and ((fwd and its[0][1].lin == Lin.const(1900) and its[0][2].lin == y) or
                                          (bwd and its[0][1].lin == y and its[0][2].lin == Lin.const(1900)))
